@@ -24,6 +24,9 @@ var c10HasValue = [][2]string{
 	{`$length().x`, ``}, {`$string().$length()`, ``}, {`$type().$`, ``}, {`$spread()[]`, ``}, {`$uppercase().$`, ``}, {`$number().($ + 1)`, ``}, {`$keys().$`, ``},
 	{`nothing{"k": $.(1)}.k`, ``}, {`$.($x := 1; $x)`, ``}, {`($.(1))`, ``}, {`$.(1) ~> $string()`, ``}, {`$.$string()`, ``},
 	{`function($a)<n+>{$a}(1, nothing)`, `[1]`}, {`function($x)<x+>{$count($x)}(nothing)`, `0`}, {`$exists(function($x)<x+>{$x[0]}(nothing))`, `false`},
+	// a null made by the program is a value, also as the context item
+	{`[null].$`, `null`}, {`[1, null, 2].$`, `[1,null,2]`}, {`[null].$exists($)`, `true`}, {`[null, 1].{"v": $}`, `[{"v":null},{"v":1}]`}, {`{"a": null}.a.$`, `null`},
+	{`[null, 1][$ = null]`, `null`}, {`[null].($)`, `null`}, {`$map([null], function($v){$v})`, `[null]`}, {`[null].$type($)`, `"null"`}, {`[[null]].$count($)`, `1`},
 	{`nothing{"k": $type().$}`, `{}`}, {`$exists(nothing{"k": $string().$length()}.k)`, `false`}, {`nothing{"k": $spread()[]}`, `{}`},
 	{`$map([1,2], function($v){nothing ~> $count})`, `[0,0]`}, {`(nothing; 1)`, `1`}, {`($x := nothing; $exists($x))`, `false`}, {`$reduce([1,2], function($a,$b){$a + $b}, nothing)`, `3`},
 }
